@@ -1,5 +1,5 @@
 // JS value <-> S-expression (DESIGN.md Appendix A) and RT S-expression -> real runtime class instances.
-import { A, Atom, head, isAtom } from "./sx.mjs";
+import { A, Atom, head, isAtom, show } from "./sx.mjs";
 
 export function canonNum(n) {
   if (Number.isNaN(n)) return "NaN";
@@ -93,12 +93,23 @@ export function tplRegex(item) {
 }
 
 // ---------- RT S-expression -> real class instances ----------
-export function makeBuilder(cg) {
+export function makeBuilder(cg, opts = {}) {
   class HRef extends cg.BaseRefRuntype {
     constructor(meta, name, table) { super(meta, name); this.table = table; }
     getNamedRuntypes() { return this.table; }
   }
+  // `share`: structurally equal runtypes (without a description of their own) are built once per table, as the compiler's
+  // hoisting of shared sub-validators does in an emitted module
   function build(x, table, meta) {
+    if (!opts.share || meta !== undefined) return build1(x, table, meta);
+    let memo = memos.get(table);
+    if (!memo) { memo = new Map(); memos.set(table, memo); }
+    const k = show(x);
+    if (!memo.has(k)) memo.set(k, build1(x, table, meta));
+    return memo.get(k);
+  }
+  const memos = new WeakMap();
+  function build1(x, table, meta) {
     if (x instanceof Atom) {
       switch (x.s) {
         case "any": return new cg.AnyRuntype(meta);
